@@ -60,6 +60,15 @@ func runC08(env *Env, rc *RunCtx) {
 	t := rc.CaseTape
 	sys := env.SysTier()
 	c := GenCase(t, GenOpts{Enc: -1, Gadgets: true, MaxTuples: 14})
+	// one case in six stores a relationship whose subject id is the EMPTY string
+	// (a legal name): every encoding has to tell it from "no subject"
+	var emptySub *Tuple
+	if t.Bool(1, 6) {
+		x := Tuple{NS: c.Query.NS, Obj: c.Query.Obj, Rel: c.Query.Rel, Sub: Subject{ID: ""}}
+		c.Tuples = append(c.Tuples, x)
+		emptySub = &x
+		rc.Count("probe_empty_subject_id", 1)
+	}
 	rc.Rec.CaseHash = fmt.Sprintf("%016x", c.Hash())
 	ref := RefCheck(c.Cfg, c.Tuples, c.Query)
 	if ref.NonStratified || ref.RewriteCycle || 10*ref.Reachable+10 > c01Depth {
@@ -93,6 +102,9 @@ func runC08(env *Env, rc *RunCtx) {
 		if len(c.Tuples) > 0 {
 			q = c.Tuples[t.Choose(len(c.Tuples))] // a stored relationship: allowed by direct lookup
 		}
+	}
+	if emptySub != nil && t.Bool(2, 3) {
+		q = *emptySub
 	}
 	unknownNS := !known[q.NS] || (q.Sub.Set != nil && !known[q.Sub.Set.NS])
 	var depth *int
